@@ -1,5 +1,5 @@
 /* vsched scenario family: synchronisation objects (mutex, cond, barrier, eventual, future, rwlock).
- * usage: sc_sync <seed> <mode> <log> <family> <nes> <nactors> <rounds> [ext%] [task%]
+ * usage: sc_sync <seed> <mode> <log> <family> <nes> <nactors> <rounds> [ext%] [task%] [shared pool 0|1]
  * Programs are generated from vs_rand() (seeded), monitors are plain C counters: under vsched a
  * statement sequence without a hook point is atomic. */
 #include "sc_common.h"
@@ -195,6 +195,26 @@ static void cm_unlock(ABT_mutex m, int id)
     vs_note("apiRet unlock CM%d 1", id);
 }
 
+static int c_nprod, c_timed_in, c_free_refused;
+static void c_try_refused_free(void)
+{
+    /* Argobots 1.x: ABT_cond_free on a condition variable that has waiters is refused (ABT_ERR_COND) and must leave the
+     * object as it was.  Called by the only producer (nobody else dequeues an untimed waiter): if more waiters are
+     * queued than timed waits are in flight, an untimed one is queued and stays so */
+    ABTI_cond *p_cond = ABTI_cond_get_ptr(C0);
+    int queued = 0;
+    for (ABTI_thread *p = p_cond->waitlist.p_head; p; p = p->p_next)
+        queued++;
+    if (c_nprod != 1 || queued <= c_timed_in)
+        return;
+    ABT_cond copy = C0;
+    int rc = ABT_cond_free(&copy);
+    vs_note("condFreeRefused C0 %d queued=%d", rc, queued);
+    VSA_CHECK(rc == ABT_ERR_COND && copy == C0, "ABT_cond_free with %d queued waiter(s) returned %d (handle %s)", queued, rc,
+              copy == C0 ? "kept" : "cleared");
+    c_free_refused++;
+}
+
 static void cond_body(actor *a)
 {
     if (c_role[a->id] == 1) {
@@ -213,6 +233,8 @@ static void cond_body(actor *a)
             VSA_CHECK(++c_holder == 1, "cond: mutex CM0 held by %d", c_holder);
             c_tokens++;
             c_holder--;
+            if (sc_rnd(3) == 0)
+                c_try_refused_free();
             if (sc_rnd(2)) { /* signal while holding the mutex ... */
                 if (sc_rnd(3))
                     { c_note_signal_under_mutex_begin(); ABT_OK(CCALL("signal", "", (c_sigseq++, ABT_cond_signal(C0)))); c_sigdone++; c_note_signal_under_mutex_end(0); }
@@ -280,7 +302,9 @@ static void cond_body(actor *a)
                 }
                 char extra[64];
                 snprintf(extra, sizeof extra, "CM0 %.17g", dl);
+                c_timed_in++;
                 rc = CCALL("timedwait", extra, ABT_cond_timedwait(C0, CM0, &ts));
+                c_timed_in--;
                 VSA_CHECK(rc == ABT_SUCCESS || rc == ABT_ERR_COND_TIMEDOUT, "cond timedwait returned %d", rc);
                 if (rc == ABT_ERR_COND_TIMEDOUT) {
                     c_timeouts++;
@@ -356,6 +380,7 @@ static void cond_setup(int nact)
                 c_quota[i]++;
     }
     c_to_produce = total;
+    c_nprod = nprod;
     /* bind the condition variable to CM0 (the first waiter's mutex is remembered for ever): a timed wait
      * whose deadline has passed */
     struct timespec ts;
@@ -376,7 +401,7 @@ static void cond_teardown(void)
     VSA_CHECK(c_succ_sure >= c_required,
               "cond: %d signal(s)/broadcast wake-ups were owed to waiters that had released the mutex inside their wait, only %d "
               "such waiters were woken (lost signal)", c_required, c_succ_sure);
-    vs_note("cond stats okwaits=%d timeouts=%d maxwaiting=%d", c_okwaits, c_timeouts, c_maxwait);
+    vs_note("cond stats okwaits=%d timeouts=%d maxwaiting=%d refusedfree=%d", c_okwaits, c_timeouts, c_maxwait, c_free_refused);
     vs_unname(ABTI_cond_get_ptr(C0));
     ABT_OK(ABT_cond_free(&C0));
     ABT_OK(ABT_mutex_free(&CM0));
@@ -392,6 +417,7 @@ int main(int argc, char **argv)
     int nes = (int)vsa_param(1, 2), nact = (int)vsa_param(2, 3);
     rounds = (int)vsa_param(3, 3);
     int extpct = (int)vsa_param(4, 25), taskpct = (int)vsa_param(5, 10);
+    sc_shared = (int)vsa_param(6, 0);
     if (nes > MAX_ES)
         nes = MAX_ES;
     if (nact > MAX_ACTORS)
